@@ -79,8 +79,18 @@ class VLoop(asyncio.SelectorEventLoop):
         self.run_until_complete(_s())
 
     async def create_datagram_endpoint(self, protocol_factory, local_addr=None, remote_addr=None, **kw):
+        # `endpoint_faults` = how many of the next openings of a CONNECTION endpoint (not a discovery's broadcast endpoint) the host refuses
+        if getattr(self, "endpoint_faults", 0) and not kw.get("allow_broadcast"):
+            self.endpoint_faults -= 1
+            self.endpoint_refusals = getattr(self, "endpoint_refusals", 0) + 1
+            await asyncio.sleep(0)
+            raise OSError(101, "Network is unreachable")
         protocol = protocol_factory()
         tr = FakeTransport(self, protocol, kw)
+        try:
+            tr.task_name = asyncio.current_task().get_name()
+        except Exception:  # noqa
+            tr.task_name = ""
         self.transports.append(tr)
         if self.network is not None:
             self.network.attach(tr)
